@@ -388,14 +388,22 @@ def mon_c06_lines(sess, sc):
     codes = [r[0] for r in reps]
     if 208 in codes or 101 in codes or len(codes) != len(lines):
         return bad                      # count mismatches are mon_protocol's business
-    for ln, code in zip(lines, codes):
-        sl = ln.split(b"\0")[0].strip(C_SPACE)
-        if len(sl) >= LINEMAX and code != 203:
-            bad.append(("length-gate", "too-long-accepted", "client %d: a line of %d bytes (>= CP_LINEMAX) was answered %d" % (k, len(sl), code)))
-        if len(sl) < LINEMAX and code == 203:
-            bad.append(("length-gate", "short-refused", "client %d: a line of %d bytes was answered 203" % (k, len(sl))))
-        if sl in (b"nodes", b"help") and code != 103:
-            bad.append(("padded-request", "wrong-reply", "client %d: `%s` (raw line %d bytes) was answered %d" % (k, sl.decode(), len(ln), code)))
+    # The length gate comes BEFORE the busy test in _parse_input: an over-long line is answered 203 at once even while the
+    # command of an earlier line is still in progress, so a 203 may OVERTAKE the terminal line of that command (client.c; the
+    # model does the same).  Hence: as many 203 as over-long lines, and the remaining lines are answered in order.
+    strip = lambda ln: ln.split(b"\0")[0].strip(C_SPACE)
+    nlong = sum(1 for ln in lines if len(strip(ln)) >= LINEMAX)
+    n203 = sum(1 for c in codes if c == 203)
+    if n203 < nlong:
+        ln = next(l for l in lines if len(strip(l)) >= LINEMAX)
+        bad.append(("length-gate", "too-long-accepted", "client %d: %d lines of >= CP_LINEMAX bytes (e.g. %d) but only %d answers 203: %s" % (k, nlong, len(strip(ln)), n203, codes)))
+    if n203 > nlong:
+        bad.append(("length-gate", "short-refused", "client %d: %d answers 203 for %d lines of >= CP_LINEMAX bytes (line lengths %s)" % (k, n203, nlong, [len(strip(l)) for l in lines])))
+    if n203 == nlong:
+        for ln, code in zip([l for l in lines if len(strip(l)) < LINEMAX], [c for c in codes if c != 203]):
+            sl = strip(ln)
+            if sl in (b"nodes", b"help") and code != 103:
+                bad.append(("padded-request", "wrong-reply", "client %d: `%s` (raw line %d bytes) was answered %d" % (k, sl.decode(), len(ln), code)))
     return bad
 
 
@@ -444,6 +452,10 @@ def hostile_scenario(rng):
             for cpos in cuts + [len(data)]:
                 extra.append(("send", bad, data[prev:cpos])); prev = cpos
             extra.append(("wait", bad))
+    if rng.random() < 0.12:
+        # a device command and, in the same breath, an over-long line: the 203 overtakes the command's terminal line
+        nodes = sc.cfg.all_nodes()
+        extra.append(("send", bad, b"off " + rng.choice(nodes).encode() + b"\noff" + b" " * (LINEMAX - 7) + b"n001\n")); extra.append(("wait", bad))
     if not (extra and extra[-1][0] == "wait"):
         extra.append(("send", bad, b"nodes\r\n")); extra.append(("wait", bad))
     end = rng.choice(["eof", "rst", "none", "quit"])
